@@ -373,6 +373,27 @@ MUTANTS = [
      "        return self.transform @ obj.flatten_to_unit().astype('float64')\n\n\n    def draw_plane",
      "        return obj.flatten_to_unit().astype('float64')\n\n\n    def draw_plane"),
     # ---- C20
+    ("c20-fs-diameter-unfix-scalar", ["C20"], "SH6", X,
+     "        inverted = ~self.center_inside()\n\n        return np.where(inverted, np.pi - res, res)\n",
+     "        inverted = ~self.center_inside()\n        res[inverted] = np.pi - res[inverted]\n\n        return res\n"),
+    ("c20-boundary-points-slice", ["C20"], "SH6", X,
+     "        return CP1Point(self.proj_data[..., :3, :])",
+     "        return CP1Point(self.proj_data[..., :2, :])"),
+    ("c20-interior-point-index", ["C20"], "SH6", X,
+     "        return CP1Point(self.proj_data[..., -1, :])",
+     "        return CP1Point(self.proj_data[..., -1])"),
+    ("c20-real-affine-squeeze-axis", ["C20"], "SH6", X,
+     "        return np.squeeze(utils.c_to_r(self.affine_coords()), axis=-2)",
+     "        return np.squeeze(utils.c_to_r(self.affine_coords()), axis=-1)"),
+    ("c20-compute-proj-data-stack-axis", ["C20"], "SH6", X,
+     "                                        center_coords], axis=-2)",
+     "                                        center_coords], axis=-1)"),
+    ("c20-spherical-concat-axis", ["C20"], "SH6", X,
+     "    spherical = np.concatenate([horizontal, np.expand_dims(vertical, axis=-1)],\n                               axis=-1)",
+     "    spherical = np.concatenate([horizontal, np.expand_dims(vertical, axis=0)],\n                               axis=-1)"),
+    ("c20-pairwise-expand-axis", ["C20"], "SH6", X,
+     "        naffaffmask = np.logical_and(\n            np.expand_dims(~s_aff, axis=1),\n            np.expand_dims(o_aff, axis=0)\n        )\n        naffnaffmask",
+     "        naffaffmask = np.logical_and(\n            np.expand_dims(~s_aff, axis=0),\n            np.expand_dims(o_aff, axis=0)\n        )\n        naffnaffmask"),
     ("c20-reuse-after-normalise", ["C20"], "O1", X,
      "                normed_ctr = utils.normalize(np.copy(center_coords))",
      "                normed_ctr = utils.normalize(center_coords)"),
